@@ -145,7 +145,7 @@ impl Prop for Pair {
         Ok(PairCase { a, b, datetime, oa, ob })
     }
     fn check(c: &PairCase, cx: &mut Cx) -> Verdict {
-        if !c.a.valid() || !c.b.valid() || c.oa.abs() > 86_399 || c.ob.abs() > 86_399 {
+        if !c.a.valid() || !c.b.valid() || c.oa.unsigned_abs() > 86_399 || c.ob.unsigned_abs() > 86_399 {
             return Verdict::Skip("malformed case");
         }
         let (m0, y0) = match judge_pair(c.a, c.b, c.datetime, cx) {
